@@ -15,6 +15,10 @@ non-class referent through the proxy, name-based fake, raising leaf) and the hin
 (Python's scoping at the def point, evaluated now). Both are turned back into evaluated hint objects in the worker;
 reference callables decorated with them give the expected vectors (the Bear model's `chk` gives them a second time
 for the implementation side).
+Programs may REBIND a name in one scope between two decorations (class redefined, alias reassigned): the specified
+hint of a def is what its annotation denotes WHEN THE DEF EXECUTES (the driver records the state of every def point:
+`specCall` / `specDef` of Core/Fwd.lean) — a name bound then keeps that object whatever it is rebound to later; only
+a name unbound at the def point (string forms only) is read in the state of the call.
   * real vector != vector of the specification hint, or variants differ  -> the property is broken on the real code
   * real vector != vector of the implementation-model hint, crash / cache contents differ -> correspondence
 """
@@ -642,6 +646,51 @@ def gen_program(rng: random.Random) -> dict:
     return {'stmts': stmts, 'placement': placement, 'shape': shape}
 
 
+REBIND_PLACEMENTS = {'mod': 5, 'clo1': 2, 'meth': 2}
+REBIND_KINDS = ['cls', 'cls', 'cls', 'alias_cls', 'alias_seq', 'alias_union', 'holder', 'generic', 'alias_gen']
+
+
+def gen_rebind(rng: random.Random) -> dict:
+    """one name bound, a callable decorated, the SAME name rebound in the SAME scope (class redefined, alias reassigned,
+    class <-> alias), a second callable decorated with the same annotation text; sometimes a third after a further
+    rebinding. Probes of every callable after every step (inside the scope and after it ended)."""
+    placement = wchoice(rng, REBIND_PLACEMENTS)
+    b = Builder(rng, 'mod')
+    name = rng.choice(LEAF_NAMES)
+    k1 = rng.choice(REBIND_KINDS)
+    if k1 in SUBSCRIPTED_KINDS:
+        later = list(SUBSCRIPTED_KINDS)
+    elif k1 == 'holder':
+        later = ['holder']
+    else:
+        later = ['cls', 'cls', 'alias_cls', 'alias_seq', 'alias_union']
+    shape = rng.choice(list(SHAPES1))
+    hint = SHAPES1[shape](leaf_expr(name, k1))
+    in_class = placement == 'meth'
+    fnames = ['m', 'm2', 'm3'] if in_class else ['f', 'g', 'h']
+    ndefs = 2 if rng.random() < 0.75 else 3
+    body, fids = [], []
+    for i in range(ndefs):
+        body.append(b.bind_stmt(name, k1 if i == 0 else rng.choice(later), alt=(i % 2 == 1)))
+        fid = 500 + i
+        fids.append(fid)
+        body.append(['def', fid, fnames[i], hint, True])
+        for f in (fids if rng.random() < 0.5 else [fid]):
+            body.append(['probe', b.tag(), f])
+    if rng.random() < 0.5:                                   # a last rebinding no callable is decorated after
+        body.append(b.bind_stmt(name, rng.choice(later), alt=(ndefs % 2 == 1)))
+    for f in reversed(fids):
+        body.append(['probe', b.tag(), f])
+    if placement == 'clo1':
+        body = [['func', 'outer', b.fresh(), body]]
+    elif placement == 'meth':
+        body = [['class', 'C', b.fresh(), b.fresh(), False, body]]
+    if placement != 'mod':
+        for f in fids:
+            body.append(['probe', b.tag(), f])
+    return {'stmts': body, 'placement': f'rebind-{placement}', 'shape': f'rebind-{shape}'}
+
+
 # ---------------------------------------------------------------------------
 # running the real code
 # ---------------------------------------------------------------------------
@@ -1044,6 +1093,52 @@ def corpus() -> list:
     # unresolved then recovered, repeatedly
     prog('corpus-recover', [['def', 500, 'f', O(N('int'), N('Later')), True], ['probe', 'p1', 500], ['probe', 'p2', 500],
                             ['cls', 'Later', 101, None, []], ['probe', 'p3', 500], ['probe', 'p4', 500]])
+    # REBINDING between two decorations (one scope, one name, the same annotation text): every def is specified by
+    # what its annotation denotes when the def executes; the first callable keeps the first object for good
+    def rebind(name, b1, b2, hint, wrap=None, fnames=('f', 'g')):
+        body = [b1, ['def', 500, fnames[0], hint, True], ['probe', 'p1', 500], b2, ['def', 501, fnames[1], hint, True],
+                ['probe', 'p2', 501], ['probe', 'p3', 500]]
+        if wrap == 'fn':
+            body = [['func', 'outer', 903, body], ['probe', 'p4', 501], ['probe', 'p5', 500]]
+        elif wrap == 'cls':
+            body = [['class', 'C', 103, 901, False, body], ['probe', 'p4', 501], ['probe', 'p5', 500]]
+        prog(name, body, shape='corpus-rebind')
+    c1, c2 = ['cls', 'K', 101, None, []], ['cls', 'K', 102, None, []]
+    a1, a2 = ['alias', 'K', N('int')], ['alias', 'K', N('str')]
+    rebind('corpus-rebind-class', c1, c2, N('K'))
+    rebind('corpus-rebind-class-list', c1, c2, S(N('list'), N('K')))
+    rebind('corpus-rebind-class-optional', c1, c2, S(N('Optional'), N('K')))
+    rebind('corpus-rebind-class-or-none', c1, c2, O(N('K'), L('none')))
+    rebind('corpus-rebind-alias', a1, a2, N('K'))
+    rebind('corpus-rebind-alias-list', a1, a2, S(N('list'), N('K')))
+    rebind('corpus-rebind-alias-hint', ['alias', 'K', S(N('list'), N('int'))], ['alias', 'K', S(N('list'), N('str'))], N('K'))
+    rebind('corpus-rebind-alias-hint-dict', ['alias', 'K', S(N('list'), N('int'))], ['alias', 'K', O(N('int'), N('str'))],
+           S(N('dict'), N('str'), N('K')))
+    rebind('corpus-rebind-class-to-alias', c1, a2, S(N('list'), N('K')))
+    rebind('corpus-rebind-alias-to-class', a1, c2, N('K'))
+    rebind('corpus-rebind-holder', ['cls', 'K', 101, None, [['In', 111]]], ['cls', 'K', 102, None, [['In', 112]]],
+           S(N('list'), A(N('K'), 'In')))
+    rebind('corpus-rebind-generic', ['cls', 'K', 101, GENERIC_BASE, []], ['cls', 'K', 102, GENERIC_BASE, []],
+           S(N('list'), S(N('K'), N('int'))))
+    rebind('corpus-rebind-class-closure', c1, c2, N('K'), wrap='fn')
+    rebind('corpus-rebind-class-list-closure', c1, c2, S(N('list'), N('K')), wrap='fn')
+    rebind('corpus-rebind-alias-closure', a1, a2, S(N('list'), N('K')), wrap='fn')
+    rebind('corpus-rebind-class-method', c1, c2, N('K'), wrap='cls', fnames=('m', 'm2'))
+    rebind('corpus-rebind-alias-method', a1, a2, S(N('list'), N('K')), wrap='cls', fnames=('m', 'm2'))
+    # a class decorated AS A WHOLE whose body rebinds a class attribute after a method naming it: the decorator runs at
+    # the end of the body (forward scope = the final class dictionary), the evaluated annotation was fixed at the def.
+    # Genuine deviation of the unchanged library (key C07:bound-instead-of-bound:bare:Lc+Vc, see PENDING_KNOWN;
+    # Lean witness C07_rebound_class_decorated_counterexample)
+    prog('corpus-rebind-alias-cdeco', [['class', 'C', 103, 901, True, [a1, ['def', 500, 'm', N('K'), False], a2,
+                                                                       ['def', 501, 'm2', N('K'), False]]],
+                                       ['probe', 'p1', 500], ['probe', 'p2', 501]], shape='corpus-rebind')
+    prog('corpus-rebind-class-list-cdeco', [['class', 'C', 103, 901, True, [c1, ['def', 500, 'm', S(N('list'), N('K')), False], c2]],
+                                            ['probe', 'p1', 500]], shape='corpus-rebind')
+    # three decorations, the name rebound back to the first object before the third
+    prog('corpus-rebind-back', [c1, ['alias', 'Old', N('K')], ['def', 500, 'f', S(N('list'), N('K')), True], c2,
+                                ['def', 501, 'g', S(N('list'), N('K')), True], ['probe', 'p1', 501], ['alias', 'K', N('Old')],
+                                ['def', 502, 'h', S(N('list'), N('K')), True], ['probe', 'p2', 502], ['probe', 'p3', 500],
+                                ['probe', 'p4', 501]], shape='corpus-rebind')
     return out
 
 
@@ -1098,7 +1193,10 @@ RULE = ('generated programs: one @beartype-checked callable at module level / in
         'decoration) / in closures (depth 1-2, classes in functions), annotation = 17 one-leaf and 5 two-leaf hint shapes over user '
         'classes, nested-class names, aliases of classes / PEP hints / unions, helper-module attributes, self references, and '
         'SUBSCRIPTED user names (K[int] with K a user generic class or an alias of a subscriptable builtin); every leaf '
-        'bound before the decoration, after it, or never, in module / enclosing-function / class scope, with shadowing bindings; 5 '
+        'bound before the decoration, after it, or never, in module / enclosing-function / class scope, with shadowing bindings; '
+        'REBINDING programs: one name bound, a callable decorated, the name rebound in the same scope (module / closure / class '
+        'body; class redefined, alias reassigned, class <-> alias), a second (third) callable decorated with the same annotation '
+        'text, every callable probed after every step - each def specified by what its annotation denotes when it executes; 5 '
         'variants (evaluated, whole string, that string under from __future__ import annotations, PEP 563 proper, strings at the '
         'names); probes inside the defining '
         'frame, after it returned, after each late definition, at module end; each probe = verdict vector over 19 base objects + 13 '
@@ -1118,6 +1216,9 @@ def explore(ck: Check, n: int, seed: int, with_corpus: bool = True, bear_every: 
     import time
     t0 = time.time()
     progs = (corpus() + systematic(full) if with_corpus else []) + [gen_program(rng) for _ in range(n)]
+    # rebinding programs from a PRNG of their own (the stream of `gen_program` stays what it was)
+    rng_rebind = random.Random(seed * 7919 + 17)
+    progs += [gen_rebind(rng_rebind) for _ in range(max(6, n // 8))]
     models = run_model(progs)
     t1 = time.time()
     reals = run_real(progs, models, bear_every=bear_every)
@@ -1511,8 +1612,11 @@ def unpredicted_key(prog, variant, tag, bad) -> str:
             n = chain_root(x)
             if n not in BUILTINS and (n == 'hm' or n not in PRELUDE):
                 binds = binds_of(prog['stmts'], n, chain, fid)
+                sites = [w for w, _, _ in binds]
+                # the name is bound more than once in one scope (rebound between / after the decorations)
+                rebound = '~rebound' if any(sites.count(w) > 1 for w in sites) else ''
                 leaves.append(('dotted' if x[0] == 'a' else 'bare') + subbed + '@' +
-                              where_class({f'{w}/{t}' for w, t, _ in binds}))
+                              where_class({f'{w}/{t}' for w, t, _ in binds}) + rebound)
         elif x[0] == 'a':
             walk(x[1])
         elif x[0] == 's':
@@ -1647,7 +1751,12 @@ def canonicalise(ex: Explore):
 #   `class C: @beartype def m(self, x: Optional['K[int]'])` (or `'K[int]'` under PEP 563), `C().m(3)`, `K = list`,
 #   `C().m([1])`: _BeartypeCallHintPepRaiseDesynchronizationException — the wrapper checks the name-based fake the first
 #   call cached, the violation raiser re-evaluates the string, `K[int]` makes a NEW subscripted proxy, resolved to `list`
-PENDING_KNOWN: set = set()        # (the four keys found while extending the generator are listed in known_findings.json now)
+#   `@beartype class C: K = int; def m(self, x: 'K'): ...; K = str` (class decorated as a whole, attribute rebound in the
+#   body after the method): `C().m(1)` is REJECTED and `C().m('a')` accepted, the evaluated annotation `K` of the same
+#   method (fixed when the def executed: int) does the opposite — the decorator resolves the string at the END of the
+#   class body against the final class dictionary (Lean: C07_rebound_class_decorated_counterexample);
+#   Lc+Vc = the name is bound in the class body before AND after the method
+PENDING_KNOWN: set = {'C07:bound-instead-of-bound:bare:Lc+Vc'}
 
 
 def pass_over_pending(ck, ex: Explore):
@@ -1714,9 +1823,15 @@ def main(ck: Check) -> int:
                            'function), C07_unresolved_raises_then_recovers_partial (frameless proxy or running parent) - each with a '
                            'decided _counterexample that is also a known finding; late SUBSCRIPTED names: C07_late_subscripted[_local] '
                            '(same name, same parent code object: resolved like the unsubscripted proxy, also in closures) with '
-                           'C07_late_subscripted_counterexample (the arguments are dropped). Frame introspection, eval of strings and the check '
+                           'C07_late_subscripted_counterexample (the arguments are dropped); rebinding: C07_spec_def_evaluated / '
+                           'C07_rebound_checked_alike (a hint stored proxy-free is the def-point reading in every later state), '
+                           'C07_spec_def_now (without rebinding the def-point reading is specNow). Frame introspection, eval of strings and the check '
                            'of the resolved hint are modelled (environment abstraction, Bear core) and tied behaviourally on every run',
-                assumptions=['single module; names are rebound at most once (a rebinding after a successful resolution is not modelled)',
+                assumptions=['single module; a name BOUND at the def point may be rebound any number of times afterwards (the '
+                             'specified hint reads it at the def point: specDef, C07_spec_def_evaluated, '
+                             'C07_rebound_checked_alike); a name UNBOUND at the def point (string forms only) is bound at most '
+                             'once afterwards (the library fixes it at the first resolution that succeeds; rebinding it after '
+                             'that is not generated)',
                              'CPython 3.12 only (PEP 649/749 lazily evaluated annotations are not exercised)',
                              'the model forces every proxy of a hint at every call; the real check is lazy: a run is no longer '
                              'compared from the call on at which one proxy raises while another is resolved for the first time '
